@@ -28,7 +28,7 @@ results = {}
 rp = os.path.join(ROOT, "seeded", "RESULTS.json")
 if os.path.exists(rp) and sel:
     results = json.load(open(rp))
-for sd in seeds:
+def run_one(sd):
     meta = json.load(open(os.path.join(ROOT, "seeded", sd, "meta.json")))
     patch = os.path.join(ROOT, "seeded", sd, "patch.diff")
     touched = set(meta["files"])
@@ -60,6 +60,10 @@ for sd in seeds:
         print(sd, entry["verdict"], {p: c["exit"] for p, c in entry["checks"].items()}, flush=True)
     finally:
         shutil.rmtree(scratch, ignore_errors=True)
+
+from concurrent.futures import ThreadPoolExecutor
+with ThreadPoolExecutor(max_workers=int(os.environ.get("SEED_JOBS", "3"))) as ex:
+    list(ex.map(run_one, seeds))
 json.dump(results, open(rp, "w"), indent=1, sort_keys=True)
 with open(os.path.join(ROOT, "seeded", "RESULTS.md"), "w") as fh:
     fh.write("| seed | breaks | verdict | checks run (exit) | first reported obligation |\n|---|---|---|---|---|\n")
